@@ -252,15 +252,16 @@ func checkParseTargetPort(c *Ctx) {
 		return
 	}
 	fn := core.FuncName(f)
-	rps, complete := core.ReturnPaths(c.P, f, 20000)
-	if !complete {
-		R.Fail("R19.3", fn+"#enumeration", f.Pos(), fn, "too many paths: undecided")
+	// inlined paths: the port conversion and its range check may live in a helper of the package
+	rps := InlinedPaths(c.P, f, inlineOpts{pkg: core.FuncPkg(f)})
+	if len(rps) == 0 {
+		R.Fail("R19.3", fn+"#enumeration", f.Pos(), fn, "paths cannot be enumerated: undecided")
 		return
 	}
 	n := 0
 	seen := map[string]bool{}
 	for _, rp := range rps {
-		if !rp.Results[1].IsConst("nil") {
+		if len(rp.Results) != 2 || !rp.Results[1].IsConst("nil") {
 			continue
 		}
 		n++
@@ -582,30 +583,34 @@ func checkDefaultPort(c *Ctx) {
 	}
 	fn := core.FuncName(f)
 	n := 0
-	for _, b := range f.Blocks {
-		for _, in := range b.Instrs {
-			call, ok := in.(*ssa.Call)
-			if !ok || call.Common().StaticCallee() == nil || !strings.HasSuffix(core.FuncName(call.Common().StaticCallee()), ".runTracerouteMulti") {
+	// on the inlined paths of RunTraceroute (the "0 means default" rule may sit in a helper): at the call that starts the runs
+	// the port argument is 33434 exactly when Port == 0 was decided, and the given port otherwise
+	seen := map[string]bool{}
+	for _, ip := range InlinedPaths(c.P, f, inlineOpts{pkg: core.FuncPkg(f), stop: runLayerStop}) {
+		for _, ev := range ip.Events {
+			if ev.Kind != "call" || !strings.HasSuffix(ev.Callee, ".runTracerouteMulti") || len(ev.Args) == 0 {
 				continue
 			}
-			paths, _ := core.EnumPaths(f, b, 100)
-			for _, pa := range paths {
-				env := core.NewEnv(c.P, pa)
-				atoms := env.Atoms()
-				if !core.Feasible(atoms) {
-					continue
-				}
-				n++
-				port := env.Term(call.Common().Args[len(call.Common().Args)-1])
-				f1, s1 := atomTrue(atoms, func(t *core.Term) bool { return t.String() == "(param:params.Port == 0)" })
-				switch {
-				case f1 && s1:
-					R.Check(port.IsConst("33434"), "R19.3", fn+"#default-port", call.Pos(), fn, "Port == 0 ⇒ the default port 33434", "Port == 0 is replaced by "+port.String())
-				case f1 && !s1:
-					R.Check(port.String() == "param:params.Port", "R19.3", fn+"#given-port", call.Pos(), fn, "a non-zero port is passed on unchanged", "a non-zero port becomes "+port.String())
-				default:
-					R.Fail("R19.3", fn+"#port", call.Pos(), fn, "the run is started without deciding Port == 0")
-				}
+			port := ev.Args[len(ev.Args)-1]
+			f1, s1 := atomTrue(ip.Atoms, func(t *core.Term) bool { return t.String() == "(param:params.Port == 0)" })
+			if !f1 {
+				// the negated spelling
+				f2, s2 := atomTrue(ip.Atoms, func(t *core.Term) bool { return t.String() == "(param:params.Port != 0)" })
+				f1, s1 = f2, !s2
+			}
+			k := fmt.Sprintf("%v/%v", f1, s1)
+			if seen[k] {
+				continue
+			}
+			seen[k] = true
+			n++
+			switch {
+			case f1 && s1:
+				R.Check(port.IsConst("33434"), "R19.3", fn+"#default-port", ev.Instr.Pos(), fn, "Port == 0 ⇒ the default port 33434", "Port == 0 is replaced by "+port.String())
+			case f1 && !s1:
+				R.Check(port.String() == "param:params.Port", "R19.3", fn+"#given-port", ev.Instr.Pos(), fn, "a non-zero port is passed on unchanged", "a non-zero port becomes "+port.String())
+			default:
+				R.Fail("R19.3", fn+"#port", ev.Instr.Pos(), fn, "the run is started without deciding Port == 0")
 			}
 		}
 	}
@@ -871,45 +876,73 @@ func ttlOrigin(c *Ctx, t *core.Term, depth int) string {
 	}
 	if t.Op == "extract" && t.Args[0].Op == "call" {
 		call := t.Args[0]
-		var f *ssa.Function
-		for _, mf := range c.P.ModFuncs {
-			if shortName(mf) == call.Name {
-				f = mf
-			}
-		}
-		if f == nil {
-			return ""
-		}
 		idx := 0
 		fmt.Sscan(t.Name, &idx)
-		rps, _ := core.ReturnPaths(c.P, f, 2000)
-		pi := -1
-		for _, rp := range rps {
-			if len(rp.Results) == 0 || !rp.Results[len(rp.Results)-1].IsConst("nil") || idx >= len(rp.Results) {
-				continue
-			}
-			r := rp.Results[idx]
-			for r.Op == "conv" {
-				r = r.Args[0]
-			}
-			if r.Op != "param" {
-				return ""
-			}
-			for i, p := range f.Params {
-				if p.Name() == r.Name {
-					if pi >= 0 && pi != i {
-						return ""
-					}
-					pi = i
-				}
-			}
-		}
+		pi := resultParam(c, call, idx, depth)
 		if pi < 0 || pi >= len(call.Args) {
 			return ""
 		}
 		return ttlOrigin(c, call.Args[pi], depth+1)
 	}
 	return ""
+}
+
+// resultParam: which parameter of the called module function is handed back (through conversions and further helpers that do
+// the same) as result #idx on every success path; -1 when there is none or it is not unique.
+func resultParam(c *Ctx, call *core.Term, idx int, depth int) int {
+	if depth > 5 {
+		return -1
+	}
+	var f *ssa.Function
+	if site, ok := call.Val.(*ssa.Call); ok {
+		f = site.Common().StaticCallee()
+	}
+	if f == nil {
+		for _, mf := range c.P.ModFuncs {
+			if shortName(mf) == call.Name {
+				f = mf
+			}
+		}
+	}
+	if f == nil || len(f.Blocks) == 0 {
+		return -1
+	}
+	rps, _ := core.ReturnPaths(c.P, f, 2000)
+	pi := -1
+	var toParam func(r *core.Term, d int) int
+	toParam = func(r *core.Term, d int) int {
+		for r.Op == "conv" {
+			r = r.Args[0]
+		}
+		switch {
+		case r.Op == "param":
+			for i, p := range f.Params {
+				if p.Name() == r.Name {
+					return i
+				}
+			}
+		case r.Op == "extract" && len(r.Args) == 1 && r.Args[0].Op == "call" && d < 4:
+			k := 0
+			fmt.Sscan(r.Name, &k)
+			inner := r.Args[0]
+			j := resultParam(c, inner, k, depth+1)
+			if j >= 0 && j < len(inner.Args) {
+				return toParam(inner.Args[j], d+1)
+			}
+		}
+		return -1
+	}
+	for _, rp := range rps {
+		if len(rp.Results) == 0 || !rp.Results[len(rp.Results)-1].IsConst("nil") || idx >= len(rp.Results) {
+			continue
+		}
+		i := toParam(rp.Results[idx], 0)
+		if i < 0 || (pi >= 0 && pi != i) {
+			return -1
+		}
+		pi = i
+	}
+	return pi
 }
 
 // callerArgTerms returns the terms the module's call sites pass for a parameter (transitively through parameters).
@@ -961,32 +994,46 @@ func checkHTTPDecoding(c *Ctx) {
 		return
 	}
 	fn := core.FuncName(f)
+	// a decoder: a module function that takes the query map first and returns one integer
 	isDecoder := func(t *core.Term) *ssa.Function {
 		if t.Op != "call" {
 			return nil
 		}
 		g := c.P.Func(t.Name)
-		if g == nil || !core.InModule(g) || len(g.Params) == 0 {
+		if site, ok := t.Val.(*ssa.Call); ok && site.Common().StaticCallee() != nil {
+			g = site.Common().StaticCallee() // the instantiation, when the decoder is generic
+		}
+		if g == nil || !core.InModule(g) || len(g.Params) == 0 || g.Signature.Results().Len() != 1 || len(g.Blocks) == 0 {
 			return nil
 		}
 		if _, ok := g.Params[0].Type().Underlying().(*types.Map); !ok {
 			return nil
 		}
+		if bits, _ := core.IntBits(g.Signature.Results().At(0).Type()); bits == 0 {
+			return nil
+		}
 		return g
 	}
+	// the parsed number: result #0 of a strconv parser, called directly or through a function value bound to one
 	parsedValue := func(t *core.Term) bool {
-		return t.Op == "extract" && t.Name == "0" && len(t.Args) == 1 && t.Args[0].Op == "call" && strings.HasPrefix(t.Args[0].Name, "strconv.")
+		if !(t.Op == "extract" && t.Name == "0" && len(t.Args) == 1 && t.Args[0].Op == "call") {
+			return false
+		}
+		cl := t.Args[0]
+		if strings.HasPrefix(cl.Name, "strconv.") {
+			return true
+		}
+		return cl.Name == "dyn" && len(cl.Args) > 0 && cl.Args[0].Op == "func" && strings.HasPrefix(cl.Args[0].Name, "strconv.")
 	}
 	valueDependent := func(t *core.Term) bool {
 		return t.Has(func(x *core.Term) bool { return parsedValue(x) || isDecoder(x) != nil })
 	}
-	checked := map[*ssa.Function]string{}
-	var faithful func(g *ssa.Function, depth int) string
-	faithful = func(g *ssa.Function, depth int) string {
-		if why, ok := checked[g]; ok {
-			return why
+	var faithful func(call *core.Term, depth int) string
+	faithful = func(call *core.Term, depth int) string {
+		g := isDecoder(call)
+		if g == nil {
+			return "not a decoder"
 		}
-		checked[g] = ""
 		if depth > 4 {
 			return "decoder nesting too deep: undecided"
 		}
@@ -994,26 +1041,38 @@ func checkHTTPDecoding(c *Ctx) {
 		if !ok || len(rps) == 0 {
 			return "return paths of " + core.FuncName(g) + " could not be enumerated: undecided"
 		}
+		// the decoder's parameters as its caller binds them (a generic decoder receives the parser as a function value)
+		sub := func(z *core.Term) *core.Term {
+			if z.Op == "param" {
+				for i, pa := range g.Params {
+					if pa.Name() == z.Name && i < len(call.Args) {
+						return call.Args[i]
+					}
+				}
+			}
+			return nil
+		}
 		why := ""
 		for _, rp := range rps {
 			if rp.Ret.Block().Comment == "recover" || len(rp.Results) != 1 {
 				continue
 			}
-			r := rp.Results[0]
+			r := rp.Results[0].Subst(sub)
 			for r.Op == "conv" && !r.Narrowing() {
 				r = r.Args[0]
 			}
 			switch {
 			case parsedValue(r):
 			case isDecoder(r) != nil:
-				if w := faithful(isDecoder(r), depth+1); w != "" {
+				if w := faithful(r, depth+1); w != "" {
 					why = w
 				}
 			case r.Op == "param" || r.Op == "const":
 				for _, a := range rp.Atoms {
 					nn := a.Norm()
+					cond := nn.Cond.Subst(sub)
 					// the only admissible reasons for the default: key absent, empty, or not a number (parse error)
-					if valueDependent(nn.Cond) && !(nn.Cond.Op == "binop" && nn.Cond.Name == "==" && nn.Cond.Args[1].IsConst("nil")) {
+					if valueDependent(cond) && !(cond.Op == "binop" && cond.Name == "==" && cond.Args[1].IsConst("nil")) {
 						why = core.FuncName(g) + " returns its default on a path that tests the decoded number (" + a.String() + "): a well-formed value is silently replaced instead of being handed to the library, which would reject it"
 					}
 				}
@@ -1021,7 +1080,6 @@ func checkHTTPDecoding(c *Ctx) {
 				why = core.FuncName(g) + " returns " + r.String() + ": the decoded number is transformed on the way"
 			}
 		}
-		checked[g] = why
 		return why
 	}
 	rps, _ := core.ReturnPaths(c.P, f, 2000)
@@ -1066,7 +1124,7 @@ func checkHTTPDecoding(c *Ctx) {
 				R.Fail("R19.5", key, rp.Ret.Pos(), fn, "field "+kv.Name+" is "+v.String()+", not a query decoder's result (converted / scaled by a constant at most)")
 				continue
 			}
-			if why := faithful(g, 0); why != "" {
+			if why := faithful(t, 0); why != "" {
 				R.Fail("R19.5", key, rp.Ret.Pos(), fn, "field "+kv.Name+": "+why)
 			} else {
 				R.OK("R19.5", key, rp.Ret.Pos(), fn, kv.Name+" = "+t.Name+"(query, "+argStr(t, 1)+", default): the parsed number or, only when absent / not a number, the default")
@@ -1108,4 +1166,14 @@ func argStr(t *core.Term, i int) string {
 		return t.Args[i].String()
 	}
 	return "?"
+}
+
+// runLayerStop: functions the request layer calls but that are not part of its own plumbing – the multi-query layer, the
+// per-run / per-probe workers – stay call events when RunTraceroute's paths are inlined.
+func runLayerStop(h *ssa.Function) bool {
+	if workSignature(h) {
+		return true
+	}
+	res := h.Signature.Results()
+	return res.Len() == 2 && isErrorType(res.At(1).Type()) && isNamed(res.At(0).Type(), core.ModulePath+"/result", "Results")
 }
